@@ -712,6 +712,19 @@ def plan(tier):
 
 
 def run_shard(spec, ctx):
-    if spec["kind"] == "export":
-        return hyp_search(ctx, export_cases(), run_case, spec["n"])
-    return hyp_search(ctx, inline_cases(), run_case, spec["n"])
+    from vlib.runner import brief
+
+    best = []  # evidence samples: the passing cases with the most classes instead of Hypothesis's first (minimal) ones
+
+    def oracle(case):
+        out = run_case(case)
+        if out.nontrivial and not out.fail and out.sample is not None:
+            best.append((len(out.classes), len(best), out.sample))
+            best.sort(key=lambda t: (-t[0], t[1]))
+            del best[2:]
+        return out
+
+    res = hyp_search(ctx, export_cases() if spec["kind"] == "export" else inline_cases(), oracle, spec["n"])
+    if best:
+        res.samples = [brief(x[2]) for x in best]
+    return res
